@@ -1091,3 +1091,12 @@ Proof.
              | eapply KM_int_text; reflexivity ]]|]).
   contradiction.
 Qed.
+
+(* Every remaining statement of this file, so that none is left unaudited. *)
+Print Assumptions C13_selected_is_spec.
+Print Assumptions C13_text_literal_reads_as_value.
+Print Assumptions C13_numeric_text_reads_as_float.
+Print Assumptions C13_selected_by_is_spec.
+Print Assumptions C13_distinct_inverted_refused.
+Print Assumptions C13_parent_zero_is_self.
+Print Assumptions C13_name_refuses.
